@@ -14,7 +14,7 @@ import math
 import operator
 from copy import copy
 from collections.abc import Iterator
-from decimal import Decimal, DivisionByZero
+from decimal import Decimal, DivisionByZero, InvalidOperation
 from typing import cast, NoReturn
 
 import elementpath.aliases as ta
@@ -679,6 +679,10 @@ def evaluate__idiv_operator(self: XPathToken, context: ta.ContextType = None) ->
         if isinstance(context, XPathSchemaContext):
             return 1
         raise self.error('FOAR0001') from None
+    except InvalidOperation as err:
+        if isinstance(context, XPathSchemaContext):
+            return 1
+        raise self.error('FOAR0002', err) from None
     else:
         if result >= 0 or isinstance(op1, Decimal) or \
                 isinstance(op2, Decimal) or abs(op1) == abs(op2):
